@@ -129,8 +129,8 @@ class DirectMethod:
         for c, m, _ in stage._constraints["point"]:
             self.opti.subject_to(self.eval_top(stage, c), meta = m)
         self.opti.add_objective(self.eval_top(stage, stage._objective))
-        self.set_initial(stage, self.opti, stage._initial)
         self.set_parameter(stage, self.opti)
+        self.set_initial(stage, self.opti, stage._initial)
 
     def set_initial(self, stage, master, initial):
         opti = master.opti if hasattr(master, 'opti') else master
